@@ -3,7 +3,7 @@
   `wf_edits : f.KeysDistinct → t.KeysDistinct → WF (.tree f) (.tree t) (edits o orc fp tp f t)` and the root gate.
   Uses C01 (index accounting of every compound edit), C02 (`zero_cost_iff_eq`) and the unfolding lemmas of `edits`.
 -/
-import GtModel.Proofs.RenderCheck
+import GtModel.Proofs.RenderMain
 import GtModel.Props.C01
 import GtModel.Props.C02
 import GtModel.Props.C03
@@ -144,8 +144,8 @@ theorem filterMap_to {α : Type} (r : Ix → Ix) (subs : List Script) (l : List 
 
 theorem filterMap_to_sim (r : Ix → Ix) (subs : List Script) (l : List Item) (F : Script → Option Item)
     (h : ∀ s ∈ subs, (s.kind = .remove → F s = none) ∧
-      (s.kind ≠ .remove → ∃ z j z', F s = some z ∧ toIxOf r s = .at j ∧ l[j]? = some z' ∧ ValSim z.val z'.val)) :
-    ValSimL ((subs.filterMap F).map Item.val) ((pick l (toIdx r subs)).map Item.val) := by
+      (s.kind ≠ .remove → ∃ z j z', F s = some z ∧ toIxOf r s = .at j ∧ l[j]? = some z' ∧ ValPerm z.val z'.val)) :
+    ValPermL ((subs.filterMap F).map Item.val) ((pick l (toIdx r subs)).map Item.val) := by
   induction subs with
   | nil => exact .nil
   | cons s rest ih =>
@@ -267,9 +267,105 @@ theorem strOK_strSubs (a b : Str) (hne : a ≠ b) : StrOK a b (strSubs a b).1 :=
 
 /-! ### leaves -/
 
-theorem valSim_of_eq {a b : Tree} (h : a.eq b = true) : ValSim (treeVal b) (treeVal a) := .symm (.eqv h)
+/-! ### node equality of trees with distinct keys is equality up to the order of object members -/
 
-theorem wf_mkMatch0 (x y : Item) (h : ValSim y.val x.val) : WF x y (mkMatch 0) := by
+theorem valKV_perm_of_sub : ∀ (as bs : List (Str × Tree)), (keys as).Nodup → as.length = bs.length →
+    (∀ p ∈ as, ∃ q ∈ bs, p.1 = q.1 ∧ ValPerm (treeVal p.2) (treeVal q.2)) → ValPermP (valKV as) (valKV bs) := by
+  intro as
+  induction as with
+  | nil =>
+    intro bs _ hl _
+    have : bs = [] := by cases bs <;> simp_all
+    subst this; exact .nil
+  | cons p rest ih =>
+    intro bs hnd hl hsub
+    obtain ⟨q, hq, hk, hv⟩ := hsub p (by simp)
+    obtain ⟨s, t, rfl⟩ := List.append_of_mem hq
+    simp only [keys, List.map_cons, List.nodup_cons, List.mem_map, not_exists, not_and] at hnd
+    have ih' := ih (s ++ t) (by simpa [keys] using hnd.2) (by simp at hl ⊢; omega) (by
+      intro p' hp'
+      obtain ⟨q', hq', hk', hv'⟩ := hsub p' (by simp [hp'])
+      refine ⟨q', ?_, hk', hv'⟩
+      simp only [List.mem_append, List.mem_cons] at hq' ⊢
+      rcases hq' with h | rfl | h
+      · exact Or.inl h
+      · exact absurd (hk'.trans hk.symm) (hnd.1 p' hp')
+      · exact Or.inr h)
+    have hpq : ValPerm (Val.pair p.1 (treeVal p.2)) (Val.pair q.1 (treeVal q.2)) := by
+      rw [hk]; exact .pair hv
+    have h1 : ValPermP (valKV (p :: rest)) (Val.pair q.1 (treeVal q.2) :: valKV (s ++ t)) := by
+      obtain ⟨pk, pv⟩ := p
+      simpa [valKV] using ValPermP.cons hpq ih'
+    refine .permR h1 ?_
+    simp only [valKV_eq, List.map_append, List.map_cons]
+    exact List.perm_middle.symm
+
+theorem eq_valPerm : ∀ a b : Tree, a.KeysDistinct → b.KeysDistinct → a.eq b = true →
+    ValPerm (treeVal a) (treeVal b) := by
+  intro a
+  induction a using Tree.ind with
+  | leaf s =>
+    intro b _ _ h
+    cases b with
+    | leaf s' =>
+      have : s = s' := (Scalar.eq_iff s s').1 (by simpa [Tree.eq] using h)
+      subst this; exact .refl _
+    | _ => simp [Tree.eq] at h
+  | list as ih =>
+    intro b ha hb h
+    cases b with
+    | list bs =>
+      have ha' := (kd_list as).1 ha
+      have hb' := (kd_list bs).1 hb
+      have hl : eqL as bs = true := by simpa [Tree.eq] using h
+      simp only [treeVal]
+      apply ValPerm.list
+      clear h ha hb
+      induction as generalizing bs with
+      | nil => cases bs with
+        | nil => exact .nil
+        | cons _ _ => simp [eqL] at hl
+      | cons c cs ihc =>
+        cases bs with
+        | nil => simp [eqL] at hl
+        | cons d ds =>
+          simp only [eqL, Bool.and_eq_true] at hl
+          simp only [valL]
+          exact .cons (ih c (by simp) d (ha' c (by simp)) (hb' d (by simp)) hl.1)
+            (ihc (fun x hx => ih x (by simp [hx])) ds (fun x hx => ha' x (by simp [hx]))
+              (fun x hx => hb' x (by simp [hx])) hl.2)
+    | _ => simp [Tree.eq] at h
+  | dict as ih =>
+    intro b ha hb h
+    cases b with
+    | dict bs =>
+      rw [kd_dict] at ha hb
+      simp only [Tree.eq, Bool.and_eq_true, beq_iff_eq] at h
+      simp only [treeVal]
+      apply ValPerm.map
+      apply valKV_perm_of_sub as bs ha.1 h.1
+      intro p hp
+      obtain ⟨q, hq, hk, hv⟩ := (subKV_iff as bs).1 h.2 p hp
+      exact ⟨q, hq, hk, ih p hp q.2 (ha.2 p hp) (hb.2 q hq) hv⟩
+    | _ => simp [Tree.eq] at h
+  | fdict as ih =>
+    intro b ha hb h
+    cases b with
+    | fdict bs =>
+      rw [kd_fdict] at ha hb
+      simp only [Tree.eq, Bool.and_eq_true, beq_iff_eq] at h
+      simp only [treeVal]
+      apply ValPerm.map
+      apply valKV_perm_of_sub as bs ha.1 h.1
+      intro p hp
+      obtain ⟨q, hq, hk, hv⟩ := (subKV_iff as bs).1 h.2 p hp
+      exact ⟨q, hq, hk, ih p hp q.2 (ha.2 p hp) (hb.2 q hq) hv⟩
+    | _ => simp [Tree.eq] at h
+
+theorem valPerm_of_eq {a b : Tree} (ha : a.KeysDistinct) (hb : b.KeysDistinct) (h : a.eq b = true) :
+    ValPerm (treeVal b) (treeVal a) := .symm (eq_valPerm a b ha hb h)
+
+theorem wf_mkMatch0 (x y : Item) (h : ValPerm y.val x.val) : WF x y (mkMatch 0) := by
   simp only [mkMatch, WF]; exact Or.inr h
 
 theorem wf_mkMatch_pos (x y : Item) (c : Nat) (h : c > 0) : WF x y (mkMatch c) := by
@@ -302,7 +398,7 @@ theorem wf_leafEdits (a : Scalar) (t : Tree) : WF (.tree (.leaf a)) (.tree t) (l
     by_cases hc : lev a.pyStr b.pyStr = 0
     · by_cases he : a.eq b = true
       · simp only [hc, beq_self_eq_true, he, Bool.not_true, Bool.and_false, Bool.false_eq_true, if_false]
-        exact wf_mkMatch0 _ _ (valSim_of_eq (by simpa [Tree.eq] using he))
+        exact wf_mkMatch0 _ _ (valPerm_of_eq (a := .leaf a) (b := .leaf b) rfl rfl (by simpa [Tree.eq] using he))
       · have he' : a.eq b = false := by simpa using he
         simp only [hc, beq_self_eq_true, he', Bool.not_false, Bool.and_true, if_true]
         exact wf_mkMatch_pos _ _ 1 (by decide)
@@ -322,7 +418,7 @@ theorem cover_of (x y : Item) (o c : Nat) (hbx : x.brackets = some (o, c)) (hby 
     (subs : List Script) (r : Ix → Ix)
     (hres : ∀ s ∈ subs, ∃ a b, resolve x.children y.children s = some (a, b))
     (hsame : ∀ s ∈ subs, s.ti = .same → ∀ i a, s.fi = .at i → x.children[i]? = some a →
-      ∃ j b', r (.at i) = .at j ∧ y.children[j]? = some b' ∧ ValSim a.val b'.val)
+      ∃ j b', r (.at i) = .at j ∧ y.children[j]? = some b' ∧ ValPerm a.val b'.val)
     (hidx : if o = 91 then
         fromIdx subs = ixRange x.children.length ∧ toIdx r subs = ixRange y.children.length
       else (fromIdx subs).Perm (ixRange x.children.length) ∧ (toIdx r subs).Perm (ixRange y.children.length)) :
@@ -342,7 +438,7 @@ theorem cover_of (x y : Item) (o c : Nat) (hbx : x.brackets = some (o, c)) (hby 
         exact ⟨i, hi, ha.symm⟩
       · obtain ⟨i, hi, ha, _⟩ := hsp.2.2 hr hk
         exact ⟨i, hi, ha.symm⟩
-  have hto : ValSimL ((sideItems false x.children y.children subs).map Item.val)
+  have hto : ValPermL ((sideItems false x.children y.children subs).map Item.val)
       ((pick y.children (toIdx r subs)).map Item.val) := by
     apply filterMap_to_sim
     intro s hs
@@ -367,11 +463,11 @@ theorem cover_of (x y : Item) (o c : Nat) (hbx : x.brackets = some (o, c)) (hby 
   · simp only [ho, if_true] at hidx ⊢
     rw [hfrom, hidx.1, pick_ixRange]
     rw [hidx.2, pick_ixRange] at hto
-    exact ⟨ValSimL.refl' _, hto⟩
+    exact ⟨ValPermL.refl' _, hto⟩
   · simp only [ho, if_false] at hidx ⊢
     rw [hfrom]
-    exact ⟨.permR (ValSimP.ofL (ValSimL.refl' _)) ((pick_perm _ hidx.1).map Item.val),
-      .permR (ValSimP.ofL hto) ((pick_perm _ hidx.2).map Item.val)⟩
+    exact ⟨.permR (ValPermP.ofL (ValPermL.refl' _)) ((pick_perm _ hidx.1).map Item.val),
+      .permR (ValPermP.ofL hto) ((pick_perm _ hidx.2).map Item.val)⟩
 
 /-! ### key/value pairs -/
 
@@ -392,7 +488,7 @@ theorem gate_edits (o : Opts) (orc : Oracle) (fp tp : List Nat) (v v' : Tree) (h
   refine ⟨htop.2.1, htop.1, ?_⟩
   intro hc
   have := (C02.zero_cost_iff_eq o orc fp tp v v' (wf_of_kd hv) (wf_of_kd hv')).1 hc
-  exact Or.inr (.eqv this)
+  exact Or.inr (eq_valPerm v v' hv hv' this)
 
 theorem wf_kvpScript (o : Opts) (orc : Oracle) (fp tp : List Nat) (k k' : Str) (v v' : Tree)
     (hv : v.KeysDistinct) (hv' : v'.KeysDistinct) (ih : WF (.tree v) (.tree v') (edits o orc fp tp v v')) :
@@ -415,12 +511,12 @@ theorem wf_kvpScript (o : Opts) (orc : Oracle) (fp tp : List Nat) (k k' : Str) (
       rw [h1]; exact strOK_strSubs k k' h2
   · rw [wf_relabel]
     split
-    · rename_i h; exact wf_mkMatch0 _ _ (valSim_of_eq h)
+    · rename_i h; exact wf_mkMatch0 _ _ (valPerm_of_eq hv hv' h)
     · exact ih
   · rw [gate_relabel]
     split
     · rename_i h
-      exact ⟨by simp, by simp, fun _ => Or.inr (.eqv h)⟩
+      exact ⟨by simp, by simp, fun _ => Or.inr (eq_valPerm v v' hv hv' h)⟩
     · exact gate_edits o orc fp tp v v' hv hv'
 
 /-! ### assembling a sequence node -/
@@ -438,7 +534,7 @@ theorem wf_seq_assemble (x y : Item) (o c : Nat) (hbx : x.brackets = some (o, c)
     (s : Script) (hk : isSeqKind s.kind = true) (r : Ix → Ix)
     (hall : ∀ s' ∈ s.subs, SubOK x.children y.children s')
     (hsame : ∀ s' ∈ s.subs, s'.ti = .same → ∀ i a, s'.fi = .at i → x.children[i]? = some a →
-      ∃ j b', r (.at i) = .at j ∧ y.children[j]? = some b' ∧ ValSim a.val b'.val)
+      ∃ j b', r (.at i) = .at j ∧ y.children[j]? = some b' ∧ ValPerm a.val b'.val)
     (hidx : if o = 91 then
         fromIdx s.subs = ixRange x.children.length ∧ toIdx r s.subs = ixRange y.children.length
       else (fromIdx s.subs).Perm (ixRange x.children.length) ∧ (toIdx r s.subs).Perm (ixRange y.children.length)) :
@@ -454,7 +550,7 @@ theorem subOK_insert (fcs tcs : List Item) (j sz p : Nat) (hj : j < tcs.length) 
   ⟨tcs[j], tcs[j], resolve_insert_at _ _ _ j _ rfl rfl (List.getElem?_eq_getElem hj), by simp [mkInsert, WF]⟩
 
 theorem subOK_match0 (fcs tcs : List Item) (i j : Nat) (hi : i < fcs.length) (hj : j < tcs.length)
-    (h : ValSim tcs[j].val fcs[i].val) : SubOK fcs tcs ((mkMatch 0).relabel (.at i) (.at j)) :=
+    (h : ValPerm tcs[j].val fcs[i].val) : SubOK fcs tcs ((mkMatch 0).relabel (.at i) (.at j)) :=
   ⟨fcs[i], tcs[j], resolve_pair _ _ _ i j _ _ (by simp) (by simp) rfl rfl (List.getElem?_eq_getElem hi)
     (List.getElem?_eq_getElem hj), by rw [wf_relabel]; exact wf_mkMatch0 _ _ h⟩
 
@@ -489,7 +585,8 @@ theorem wf_list (o : Opts) (orc : Oracle) (fp tp : List Nat) (fcs tcs : List Tre
   rw [edits_list_list]
   split
   · rename_i h
-    exact wf_mkMatch0 _ _ (valSim_of_eq (by simpa [Tree.eq] using h))
+    exact wf_mkMatch0 _ _ (valPerm_of_eq (a := .list fcs) (b := .list tcs) ((kd_list fcs).2 hf) ((kd_list tcs).2 ht)
+      (by simpa [Tree.eq] using h))
   · split
     · -- FixedLengthSequenceEdit
       have hall : ∀ s' ∈ (fixedScript fcs tcs (listTbl o orc fp tp fcs tcs)).subs,
@@ -522,7 +619,8 @@ theorem wf_list (o : Opts) (orc : Oracle) (fp tp : List Nat) (fcs tcs : List Tre
             by simp⟩
           have := trim_prefix (Tree.leaf .null) fcs tcs k hk
           rw [beq_tree, getD_eq_getElem' _ _ hkf, getD_eq_getElem' _ _ hkt] at this
-          simpa [Item.children, Item.val] using valSim_of_eq this
+          simpa [Item.children, Item.val] using
+            valPerm_of_eq (hf _ (List.getElem_mem hkf)) (ht _ (List.getElem_mem hkt)) this
         · have hr := solve_located_inRange _ _ _ _ hm
           simp only [List.length_map, middle_length] at hr
           cases m
@@ -544,7 +642,8 @@ theorem wf_list (o : Opts) (orc : Oracle) (fp tp : List Nat) (fcs tcs : List Tre
           have e1 : fcs.length - 1 - ((trimLens fcs tcs).2 - 1 - k) = fcs.length - (trimLens fcs tcs).2 + k := by omega
           have e2 : tcs.length - 1 - ((trimLens fcs tcs).2 - 1 - k) = tcs.length - (trimLens fcs tcs).2 + k := by omega
           rw [beq_tree, e1, e2, getD_eq_getElem' _ _ hkf, getD_eq_getElem' _ _ hkt] at this
-          simpa [Item.children, Item.val] using valSim_of_eq this
+          simpa [Item.children, Item.val] using
+            valPerm_of_eq (hf _ (List.getElem_mem hkf)) (ht _ (List.getElem_mem hkt)) this
       apply wf_seq_assemble _ _ 91 93 rfl rfl _ rfl id (fun s' hs' => (hall _ s' hs').1)
         (fun s' hs' h => absurd h (hall _ s' hs').2)
       simp only [if_true, Item.children, List.length_map]
@@ -558,13 +657,13 @@ theorem kvItems_get (kvs : List (Str × Tree)) (i : Nat) (hi : i < (kvItems kvs)
     (kvItems kvs)[i] = Item.kv (kvs[i]'(by simpa [kvItems] using hi)).1 (kvs[i]'(by simpa [kvItems] using hi)).2 := by
   simp [kvItems]
 
-theorem valSim_kv_of_kvEq {f t : Str × Tree} (h : kvEq f t = true) :
-    ValSim (Item.kv f.1 f.2).val (Item.kv t.1 t.2).val := by
+theorem valPerm_kv_of_kvEq {f t : Str × Tree} (hf : f.2.KeysDistinct) (ht : t.2.KeysDistinct)
+    (h : kvEq f t = true) : ValPerm (Item.kv f.1 f.2).val (Item.kv t.1 t.2).val := by
   simp only [kvEq, Bool.and_eq_true, beq_iff_eq] at h
   obtain ⟨hk, hv⟩ := h
   simp only [Item.val]
   rw [hk]
-  exact .pair (.eqv hv)
+  exact .pair (eq_valPerm _ _ hf ht hv)
 
 /-- a key/value pair edit between the i-th pair of the first and the j-th pair of the second mapping -/
 theorem subOK_msKvE (o : Opts) (orc : Oracle) (fp tp : List Nat) (fkv tkv : List (Str × Tree)) (i j : Nat)
@@ -582,24 +681,26 @@ theorem subOK_msKvE (o : Opts) (orc : Oracle) (fp tp : List Nat) (fkv tkv : List
   exact wf_kvpScript o orc _ _ _ _ _ _ hv hv' ih
 
 theorem subOK_kvMatch0 (fkv tkv : List (Str × Tree)) (i j : Nat) (hi : i < fkv.length) (hj : j < tkv.length)
-    (h : kvEq fkv[i] tkv[j] = true) :
+    (hv : fkv[i].2.KeysDistinct) (hv' : tkv[j].2.KeysDistinct) (h : kvEq fkv[i] tkv[j] = true) :
     SubOK (kvItems fkv) (kvItems tkv) ((mkMatch 0).relabel (.at i) (.at j)) := by
   have hi' : i < (kvItems fkv).length := by simpa [kvItems] using hi
   have hj' : j < (kvItems tkv).length := by simpa [kvItems] using hj
   apply subOK_match0 _ _ i j hi' hj'
   rw [kvItems_get, kvItems_get]
-  exact .symm (valSim_kv_of_kvEq h)
+  exact .symm (valPerm_kv_of_kvEq hv hv' h)
 
 theorem wf_fdict (o : Opts) (orc : Oracle) (fp tp : List Nat) (fkv tkv : List (Str × Tree))
     (hf : (Tree.fdict fkv).KeysDistinct) (ht : (Tree.fdict tkv).KeysDistinct)
     (ih : ∀ kv ∈ fkv, ∀ (fp tp : List Nat) (t : Tree), kv.2.KeysDistinct → t.KeysDistinct →
       WF (.tree kv.2) (.tree t) (edits o orc fp tp kv.2 t)) :
     WF (.tree (.fdict fkv)) (.tree (.fdict tkv)) (edits o orc fp tp (.fdict fkv) (.fdict tkv)) := by
+  have hf0 := hf
+  have ht0 := ht
   rw [kd_fdict] at hf ht
   rw [edits_fdict_fdict]
   split
   · rename_i h
-    exact wf_mkMatch0 _ _ (valSim_of_eq (by simpa [Tree.eq] using h))
+    exact wf_mkMatch0 _ _ (valPerm_of_eq (a := .fdict fkv) (b := .fdict tkv) hf0 ht0 (by simpa [Tree.eq] using h))
   · have hcell : ∀ i j (hi : i < fkv.length) (hj : j < tkv.length), _ := fun i j hi hj =>
       subOK_msKvE o orc fp tp fkv tkv i j hi hj (hf.2 _ (List.getElem_mem hi)) (ht.2 _ (List.getElem_mem hj))
         (ih _ (List.getElem_mem hi) _ _ _ (hf.2 _ (List.getElem_mem hi)) (ht.2 _ (List.getElem_mem hj)))
@@ -615,7 +716,8 @@ theorem wf_fdict (o : Opts) (orc : Oracle) (fp tp : List Nat) (fkv tkv : List (S
         split
         · rename_i hkv
           rw [getD_eq_getElem' _ _ hi, getD_eq_getElem' _ _ hjl] at hkv
-          exact ⟨subOK_kvMatch0 fkv tkv i j hi hjl hkv, by simp⟩
+          exact ⟨subOK_kvMatch0 fkv tkv i j hi hjl (hf.2 _ (List.getElem_mem hi)) (ht.2 _ (List.getElem_mem hjl)) hkv,
+            by simp⟩
         · exact ⟨hcell i j hi hjl, by simp⟩
       · exact ⟨subOK_remove _ _ _ _ _ (by simpa [kvItems] using hi), by simp⟩
       · exact ⟨subOK_insert _ _ _ _ _ (by simpa [kvItems] using hj), by simp⟩
@@ -629,11 +731,13 @@ theorem wf_dict (o : Opts) (orc : Oracle) (fp tp : List Nat) (fkv tkv : List (St
     (ih : ∀ kv ∈ fkv, ∀ (fp tp : List Nat) (t : Tree), kv.2.KeysDistinct → t.KeysDistinct →
       WF (.tree kv.2) (.tree t) (edits o orc fp tp kv.2 t)) :
     WF (.tree (.dict fkv)) (.tree (.dict tkv)) (edits o orc fp tp (.dict fkv) (.dict tkv)) := by
+  have hf0 := hf
+  have ht0 := ht
   rw [kd_dict] at hf ht
   rw [edits_dict_dict]
   split
   · rename_i h
-    exact wf_mkMatch0 _ _ (valSim_of_eq (by simpa [Tree.eq] using h))
+    exact wf_mkMatch0 _ _ (valPerm_of_eq (a := .dict fkv) (b := .dict tkv) hf0 ht0 (by simpa [Tree.eq] using h))
   · have hcell : ∀ i j (hi : i < fkv.length) (hj : j < tkv.length), _ := fun i j hi hj =>
       subOK_msKvE o orc fp tp fkv tkv i j hi hj (hf.2 _ (List.getElem_mem hi)) (ht.2 _ (List.getElem_mem hj))
         (ih _ (List.getElem_mem hi) _ _ _ (hf.2 _ (List.getElem_mem hi)) (ht.2 _ (List.getElem_mem hj)))
@@ -687,7 +791,7 @@ theorem wf_dict (o : Opts) (orc : Oracle) (fp tp : List Nat) (fkv tkv : List (St
         have : (Item.tree (.dict fkv)).children[i]? = some (kvItems fkv)[i] := List.getElem?_eq_getElem hi''
         rw [this] at ha; exact (Option.some.inj ha).symm
       rw [ha', kvItems_get, kvItems_get]
-      exact valSim_kv_of_kvEq hkv
+      exact valPerm_kv_of_kvEq (hf.2 _ (List.getElem_mem hil)) (ht.2 _ (List.getElem_mem hjl)) hkv
     · simp only [show (123 : Nat) ≠ 91 by decide, if_false, Item.children, List.length_map]
       have hs : KvSymm fkv tkv :=
         kvSymm_of_eqSymm _ _ (fun x hx y hy => Tree.eq_symm _ _ (hf.2 x hx) (ht.2 y hy))
